@@ -30,15 +30,16 @@ REGISTRATION = {
             "handler one level up (request JSON as the llm client sends it; streamed JSON lines compared exactly), and with the "
             "real llamarunner loop (loadModel, NewSequence, LoadCacheSlot, processBatch, removeSequence, flushPending on the real "
             "llama.cpp llama_decode / sampler / token_to_piece / is_eog; only the weights and the vocabulary of a generated tiny "
-            "GGUF file are scripted); the go/ast skeleton of the output statements of both runners and of llamarunner's "
-            "completion handler is regenerated on every run.",
+            "GGUF file are scripted) and llamarunner's completion handler in front of it; the go/ast skeleton of the output "
+            "statements of both runners and handlers is regenerated on every run.",
     "design_ref": "DESIGN.md §5 C14, §6 F7/F20",
     "note": COMMON_NOTE + "Modelled, not verified: what the decode loop does after the client disconnected (the select "
             "in flushPending is then nondeterministic; disconnect_prefix covers what the client holds, L2 monitors the rest), "
             "stop strings reach the runner through JSON and are therefore valid UTF-8 (the stop clauses are stated for valid "
-            "non-empty stops; arbitrary-byte and empty stops are still covered by L1 and by prefix_valid/chunks_valid), "
-            "llamarunner's completion HTTP handler is compared structurally (statement skeleton), not executed; its per-token "
-            "loop is executed with greedy sampling only and with pieces free of NUL bytes. Two clauses of the statement are "
+            "non-empty stops; a stop list with an empty member: empty_stop_streams_nothing; arbitrary-byte stops are covered by L1 "
+            "and by prefix_valid/chunks_valid), "
+            "llamarunner's loop and completion handler are executed with greedy sampling only, with pieces free of NUL bytes "
+            "and behind a generated one-layer model. Two clauses of the statement are "
             "refuted as written and proved in the weaker true form: 'prefix of the generated text' holds for valid-UTF-8 "
             "generations only (F20a), 'the reason says which of the three' is a two-valued map (F20b).",
 }
@@ -92,6 +93,7 @@ THEOREMS = [
     "OllamaVerif.C14.genText_prefix_script",
     "OllamaVerif.C14.cacheKeep_spec",
     "OllamaVerif.C14.shape_whole",
+    "OllamaVerif.C14.empty_stop_streams_nothing",
 ]
 # Model variant the oracle is asked to run: 1 = first listed stop (finding F7, fixed in /repo 6e9857ebf), 0 = earliest
 # occurrence.  NOT a constant any more: decided on every run by executing the real FindStop (regenerate_variant), and
@@ -323,8 +325,7 @@ def run(ctx):
         "stop strings are valid UTF-8 when they reach the runner (they arrive through encoding/json); the stop clauses "
         "of the theorems and the L2 stop monitors are stated for valid, non-empty stops",
         "llamarunner's loop is executed with a generated GGUF model (one layer, one-hot embeddings, greedy sampling): what "
-        "llama.cpp computes for real weights / other samplers is outside; its completion handler is tied by the regenerated "
-        "statement skeleton only",
+        "llama.cpp computes for real weights / other samplers is outside",
         "for generated bytes that are not (a prefix of) valid UTF-8 the L2 monitors keep chunk validity, the reason map, "
         "stop-in-output and the narrowed byte-dropping class on; 'ends right before the stop' and 'everything streamed at "
         "EOS/limit' are evaluated for valid generations only (what is dropped after an undecodable byte is F20a)",
